@@ -91,4 +91,16 @@ def rCoord [Add α] [Mul α] (ofNat : Nat → α) (fract : α → α) (start a :
 def rPoint [Add α] [Mul α] (ofNat : Nat → α) (fract : α → α) (start : α) (alphas : List α) (n : Nat) : List α :=
   alphas.map (fun a => rCoord ofNat fract start a n)
 
+/-- `RSequenceSampler.compute_phi(nb_dims)`: `phi = 2.0; while old_phi != phi: old_phi = phi; phi = pow(1 + phi, 1/(nb_dims+1))`.
+`root y` stands for `pow(y, 1.0 / (nb_dims + 1))`; `fuel` bounds the `while` (`none` = still moving after `fuel` rounds). -/
+def phiLoop [BEq α] [Add α] (one : α) (root : α → α) : Nat → α → Option α
+  | 0, _ => none
+  | fuel + 1, phi =>
+    let phi' := root (one + phi)
+    if phi' == phi then some phi' else phiLoop one root fuel phi'
+
+/-- `np.power(1 / phi, np.arange(1, dims + 1))`; `pw x k` stands for `x ** k` -/
+def alphas [Div α] (one : α) (pw : α → Nat → α) (phi : α) (dims : Nat) : List α :=
+  (List.range dims).map (fun j => pw (one / phi) (j + 1))
+
 end BlackIt.Halton
